@@ -25,7 +25,7 @@ COVERTS = [("[10.1.1.1]:80", "10.1.1.1:80"), ("[8.8.8.8]:53", "8.8.8.8:53"),
 PHANTOMS = ["192.0.2.1", "2001:db8::1", "192.0.2.66"]
 POINTS = {"ingest:after-exists": 1, "ingest:after-track": 2, "ingest:after-covert": 3, "probe": 4, "end": 5,
           "sweep:collected": 6, "sweep:before-remove": 7, "sweep:idle": 8, "handler:found": 9, "disabled": 10,
-          "age": 11}
+          "age": 11, "publish": 14}
 AGES = [299 * 10**9, 660 * 10**9, 25200 * 10**9]
 
 
@@ -212,6 +212,21 @@ def gen_sched_cases(ctx):
         i, j = rng.randrange(5, len(seq)), rng.randrange(5, len(seq))
         seq[i], seq[j] = seq[j], seq[i]
         cases.append(scenario([a, b2], sw, sched_json(seq), tag="swept-in-flight"))
+    # (6) the window between "valid" and "announced": the validating worker is given extra turns (it has
+    #     none left if validate+announce is one critical section), a handler looks up and activates, or the
+    #     registration expires and is received again, in between
+    pa, pb2 = mk_reg(1, 0, 1, "api", True, False), mk_reg(1, 0, 2, "api", True, False)
+    hw = [{"kind": "handler", "reg": 0, "to": 0}]
+    t1 = [0, 0, 0, 1, 1, 0, 0]
+    cases.append(scenario([pa], hw, sched_json(t1), tag="publish-window"))
+    sw1 = [{"kind": "sweeper", "reg": 0, "to": 1}, {"kind": "handler", "reg": 0, "to": 0}]
+    t2 = [0, 0, 0, ("age", 0, AGES[1]), 2, 2, 2, 1, 1, 1, 0, 0, 3, 3, 1]
+    cases.append(scenario([pa, pb2], sw1, sched_json(t2), tag="publish-window"))
+    for _ in range(12 if quick else 100):
+        seq = list(t2)
+        i, j = rng.randrange(3, len(seq)), rng.randrange(3, len(seq))
+        seq[i], seq[j] = seq[j], seq[i]
+        cases.append(scenario([pa, pb2], sw1, sched_json(seq), tag="publish-window"))
     for c in (ctx.replay or {}).get("sched_cases", []):
         cases.insert(0, c)
     return cases
@@ -391,6 +406,7 @@ def oracle(ctx, c, r, idx):
     if r.get("error"):
         ctx.fail("sched:hang", "a thread of the pipeline did not reach its next schedule point (deadlock): %s" % r["error"], replay)
     ann_live = {}     # key -> announced in the current lifetime
+    ever_new = set()
     removed_ever = set()
     events_by_step = {}
     for e in r["events"]:
@@ -402,13 +418,24 @@ def oracle(ctx, c, r, idx):
         if ob["removed"] >= 0:
             ann_live[ob["removed"]] = False
             removed_ever.add(ob["removed"])
+        if ob["point"] == "publish":
+            # a publication outside the registration lock is a schedule point of its own; what matters is the order below
+            ctx.cov["histogram"]["point/publish-outside-lock"] = ctx.cov["histogram"].get("point/publish-outside-lock", 0) + 1
         for e in events_by_step.get(i, []):
+            k = key_of_obj(c, e["obj"])
             if e["kind"] == "announce":
-                k = key_of_obj(c, e["obj"])
                 if ann_live.get(k):
                     ctx.fail("announce-twice", "registration key %d announced to the detector twice within one lifetime "
                              "(schedule step %d)" % (k, i), replay)
                 ann_live[k] = True
+                ever_new.add(k)
+                cur = [x for x in ob["snap"] if x["key"] == k]
+                if not cur or cur[0]["obj"] != e["obj"] or not cur[0]["valid"]:
+                    ctx.fail("new-for-untracked", "New published for registration object %d of key %d which is not the tracked, "
+                             "valid object of that key at that moment (step %d): the announcement belongs to an earlier lifetime"
+                             % (e["obj"], k, i), replay)
+            elif e["kind"] == "update" and k not in ever_new:
+                ctx.fail("update-before-new", "the detector received Update for key %d before any New for it (step %d)" % (k, i), replay)
         if 0 <= st["t"] < len(kinds) and kinds[st["t"]] == "handler" and ob.get("found"):
             for o, cv in zip(ob["found"], ob["found_covert"]):
                 k = key_of_obj(c, o)
@@ -468,6 +495,14 @@ def run_distrib(ctx, split):
                                                   mk_reg(3, 1, 2, "api", False, False), mk_reg(4, 0, 1, "api", True, False)])]
     for kind in ("track", "dup", "activate"):
         cases.append({"mode": "locktrace", "scenario": kind, "regs": lt_regs})
+    # stop request while the worker pool is still starting (run in a child process: a late worker that panics kills it)
+    su = []
+    for nw in (4, 20, 300):
+        for timing, y in (("before", 0), ("after", 0), ("yield", 1), ("yield", 8)):
+            for busy in (False, True):
+                su.append({"workers": nw, "timing": timing, "yields": y, "busy": busy,
+                           "trials": (2 if nw == 300 else 6) * (1 if quick else 4)})
+    cases.append({"mode": "startup", "scenario": "startup", "startup": su})
     rc, out, res = ctx.go_inpkg(".", PKG, DRIVER, "^(TestVerifC09)$", cases, timeout=300)
     if res is None or len(res) != len(cases):
         ctx.broken("driver", "Go driver (distrib) produced no results: %s" % out[-800:])
@@ -475,6 +510,26 @@ def run_distrib(ctx, split):
     terms = []
     for c, r in zip(cases, res):
         sc = c["scenario"]
+        if c["mode"] == "startup":
+            for j, x in enumerate(c["startup"]):
+                ctx.count(("startup", j, x["workers"], x["timing"], x["busy"]), kind="startup/" + x["timing"])
+            last = r.get("child_last", -1)
+            at = c["startup"][last] if 0 <= last < len(c["startup"]) else None
+            if r.get("child_panic"):
+                ctx.fail("startup-cancel:panic", "a goroutine of the ingest pipeline panicked after a stop request that arrived while the worker "
+                         "pool was starting (scenario %s): %s" % (at, r["child_panic"][:500]),
+                         {"startup": at, "panic": r["child_panic"]})
+            elif r.get("error") or not r.get("child_done"):
+                ctx.broken("driver", "startup child process: %s" % (r.get("error") or "no result"), {"startup": at})
+            else:
+                for x, y in zip(c["startup"], r["startup_res"] or []):
+                    if y["not_returned"]:
+                        ctx.fail("startup-cancel:hang", "HandleRegUpdates did not return within 4 s of a stop request during start-up (%s)" % x,
+                                 {"startup": x, "observed": y})
+                    elif y["max_alive"] >= 2:
+                        ctx.fail("startup-cancel:returned-before-workers", "HandleRegUpdates returned while %d of its %d ingest workers were "
+                                 "still alive (stop request during start-up, %s)" % (y["max_alive"], x["workers"], x), {"startup": x, "observed": y})
+            continue
         if c["mode"] == "locktrace":
             ctx.count(("locktrace", sc, r["depth_at_scan"], r["writer_queued"]), kind="locktrace/" + sc)
             replay = {"locktrace": c, "observed": {k: v for k, v in r.items() if v not in (None, [], "", 0, False)}}
@@ -688,7 +743,7 @@ def run(ctx):
         terms.append(hexs(enc_case(c, r, split)))
     ctx.sample({"scenario": {"regs": [reg_json(x) for x in cases[0]["regs"]], "schedule": cases[0]["schedule"]},
                 "observed_last_step": res[0]["steps"][-1] if res[0]["steps"] else None, "events": res[0]["events"]})
-    ctx.require_kinds(["sched/pair0", "sched/pair+handler", "sched/trio", "sched/mixed", "sched/swept-in-flight",
+    ctx.require_kinds(["sched/publish-window", "startup/before", "startup/after", "startup/yield", "sched/pair0", "sched/pair+handler", "sched/trio", "sched/mixed", "sched/swept-in-flight",
                        "point/after-track", "point/after-covert", "point/probe", "point/end", "point/collected",
                        "point/before-remove", "point/found", "point/disabled", "sweep/removed", "ingest/duplicate",
                        "handler/activated", "distrib/idle", "distrib/busy", "distrib/overload",
